@@ -342,7 +342,7 @@ def render_func(f, deco, indent=''):
             for nm, t in d['params']:
                 lines.append(b + '    ' + (f'{nm}: the {nm}' if t is None else f'{nm} ({rt(t)}): the {nm}'))
         if d['returns'] is not None:
-            lines += ['', b + 'Returns:']
+            lines += ['', b + d.get('section', 'Returns') + ':']
             if not d['returns']:
                 lines.append(b + '    the result')
             else:
@@ -420,6 +420,15 @@ def edits_of(rng, f, tier):
         nt, dep = mutate_type(rng, d['returns'][0])
         out.append(('alter_returns', doc(returns=[nt]), 'oracle', dep))
         out.append(('untype_returns', doc(returns=[]), 'pdoc', 0))
+        # the Returns section rewritten as a Yields section (docstring_parser exposes it through the same Docstring.returns):
+        # with the same type (a Yields entry standing in for Returns: outside the property's domain, correspondence only) ...
+        out.append(('returns_to_yields_same', dict(doc(), section='Yields'), 'model', 0))
+        # ... and with the first type argument of the return annotation (the item type): no entry equals the annotation
+        ch = children(f['ret']) if isinstance(f['ret'], tuple) and f['ret'][0] != 'call' else []
+        if ch:
+            out.append(('returns_to_yields_first_arg', dict(doc(returns=[ch[0]]), section='Yields'), 'oracle', 0))
+        if ch and rng.random() < 0.5:
+            out.append(('alter_returns_first_arg', doc(returns=[ch[0]]), 'oracle', 0))
     return out
 
 
@@ -633,7 +642,7 @@ def split_model(m):
     return whole, funcs
 
 
-def expected_for(fl, raw):
+def expected_for(fl, raw, returns_kind=None):
     """what the property demands for one function, from the specification evaluated in Coq:
     'ok' / 'pdoc' / None (outside the quantifier of the property: correspondence only)"""
     if not (fl['sig_ok'] and fl['scope_ok']):
@@ -643,6 +652,8 @@ def expected_for(fl, raw):
     if raw != 'text':
         return 'pdoc'
     if fl['consistent']:
+        if returns_kind not in (None, 'returns', 'return'):
+            return None      # a Yields entry with the type of the annotation stands in for the Returns entry: not judged
         return 'ok' if fl['no_typing_dot'] else None
     if not fl['doc_evaluable']:
         return None
@@ -669,7 +680,7 @@ def judge_docstring(c, impl, model):
             corr.append(f'function {fi["name"]}: specification says consistent={fm["flags"]["consistent"]}, Python says {fi["py_consistent"]}')
         if bool(fm['flags']['doc_evaluable']) != fi['py_evaluable']:
             corr.append(f'function {fi["name"]}: specification says evaluable={fm["flags"]["doc_evaluable"]}, Python says {fi["py_evaluable"]}')
-        exps.append(expected_for(fm['flags'], fi['doc']['raw']))
+        exps.append(expected_for(fm['flags'], fi['doc']['raw'], fi['doc'].get('returns_kind')))
     flags = [fm['flags'] for fm in mf]
     c['_flags'] = flags
     c['_impl'] = impl['outcome']
